@@ -441,6 +441,9 @@ func vmapPoint() {
 func (m *verifSyncMap) Load(k any) (any, bool) { vmapPoint(); return m.real.Load(k) }
 func (m *verifSyncMap) Store(k, v any)         { vmapPoint(); m.real.Store(k, v) }
 func (m *verifSyncMap) Delete(k any)           { vmapPoint(); m.real.Delete(k) }
+func (m *verifSyncMap) LoadAndDelete(k any) (any, bool) { vmapPoint(); return m.real.LoadAndDelete(k) }
+func (m *verifSyncMap) LoadOrStore(k, v any) (any, bool) { vmapPoint(); return m.real.LoadOrStore(k, v) }
+func (m *verifSyncMap) Swap(k, v any) (any, bool)        { vmapPoint(); return m.real.Swap(k, v) }
 func (m *verifSyncMap) Range(f func(k, v any) bool) {
 	if vself() == nil {
 		m.real.Range(f)
